@@ -253,13 +253,20 @@ func (s *settings) GetBySwampName(swampName name.Name) setting.Setting {
 	s.mu.RLock()
 	defer s.mu.RUnlock()
 
-	if len(s.patterns) > 0 {
-		for _, pi := range s.patterns {
-			// compare if the pattern is math with the swamp name
-			if swampName.ComparePattern(pi.GetPattern()) {
-				return pi
+	// More than one registered pattern can match the same swamp (exact, swamp wildcard, realm wildcard).
+	// Go map iteration order is random, so the most specific match is selected instead of the first one found.
+	var best setting.Setting
+	bestRank := -1
+	for _, pi := range s.patterns {
+		// compare if the pattern is math with the swamp name
+		if swampName.ComparePattern(pi.GetPattern()) {
+			if rank := patternSpecificity(pi.GetPattern()); rank > bestRank {
+				best, bestRank = pi, rank
 			}
 		}
+	}
+	if best != nil {
+		return best
 	}
 
 	// ha nem találunk olyan beállítást, ami a megadott mintához tartozik, akkor visszaadjuk az alapértelmezett beállítást
@@ -272,6 +279,18 @@ func (s *settings) GetBySwampName(swampName name.Name) setting.Setting {
 		InMemory:          false,
 	})
 
+}
+
+// patternSpecificity ranks a pattern by how specific it is: exact > swamp wildcard > realm wildcard > both wildcards.
+func patternSpecificity(pattern name.Name) int {
+	rank := 0
+	if pattern.GetRealmName() != "*" {
+		rank += 2
+	}
+	if pattern.GetSwampName() != "*" {
+		rank += 1
+	}
+	return rank
 }
 
 func (s *settings) CallbackAtChanges(f func()) chan bool {
